@@ -144,7 +144,12 @@ def timer_worker(a):
                 elif how == 4:
                     s.do({"t": "password", "id": cid, "text": "+x alice pw"})
                     st = s.open.get(cid)
-                    if st and st["tag"]:
+                    if st and st["tag"] and k >= 18:
+                        # told to retry / challenged, and withdrawn before anything else: whatever the challenge did to the request's
+                        # timer, nothing of it is left when the request is gone
+                        s.do({"t": "reply", "svc": "login.svc", "tag": st["tag"], "text": ["AGAIN try again", "MORE prove it"][k % 2]})
+                        s.do({"t": ["disconnect", "registered"][(k // 2) % 2], "id": cid})
+                    elif st and st["tag"]:
                         s.do({"t": "reply", "svc": "login.svc", "tag": st["tag"], "text": "NO denied"})
                 elif how in (6, 7):
                     # soft-done with a query outstanding, then withdrawn / registered before any verdict:
@@ -201,6 +206,11 @@ def timeout_switch_worker(a):
                 s.do({"t": "nick", "id": cid, "name": "n%d" % cid})
         s.do({"t": "stats"})
         s.do({"t": "reload", "services": [list(x) for x in svcs], "timeout": (1 if up else 0)})
+        # a client of before the switch sends its password (and a second one) under the new setting: the service is asked, the client
+        # stays incomplete; its request has the timer it was given at its announcement - or none
+        s.do({"t": "password", "id": first[4], "text": "+x acct pw"})
+        s.do({"t": "password", "id": first[4], "text": "+x acct pw2"})
+        s.do({"t": "host", "id": first[5], "name": "h.example"})
         for cid in first[:3]:
             s.do({"t": rng.choice(["disconnect", "registered"]), "id": cid})
         s.do({"t": "stats"})
